@@ -52,6 +52,7 @@ META = {
         "interaction_failed",
         "second_interaction",
         "abort_generation_on_arrival",
+        "delivery_during_search",
         "interleaved_two_externals",
         "pipelined_message",
         "forecast_checked",
@@ -133,6 +134,9 @@ class ProtoSimulation:
         self.in_preempt = False
         self.generating = False
         self._orig_compute = None
+        self._orig_eval = None
+        self.evals_since_quiet = 0
+        self.search_speed = self.ch.pick([0, 0, 1, 2], "cfg", "search-speed")  # 0 = instantaneous search
 
     # ------------------------------------------------------------------ seams
     def install(self, f):
@@ -158,6 +162,28 @@ class ProtoSimulation:
             sim.check_step(selector, history_tree)
 
         PacketSelector.compute = compute
+        # the search takes time: a seeded amount of virtual time passes per evaluated candidate, so
+        # that remote data can arrive *while* Fandango is generating its own next message
+        import fandango.evolution.evaluation as E
+
+        self._eval_cls = E.IoEvaluator
+        self._orig_eval = E.IoEvaluator.evaluate_individual
+
+        def evaluate_individual(ev_self, individual):
+            sim.compute_time()
+            return sim._orig_eval(ev_self, individual)
+
+        E.IoEvaluator.evaluate_individual = evaluate_individual
+        orig_received = io.received_msg
+
+        def received_msg(*a, **kw):
+            r = orig_received(*a, **kw)
+            if r and sim.evals_since_quiet:
+                sim.run.probe("abort_generation_on_arrival")
+            sim.evals_since_quiet = 0
+            return r
+
+        io.received_msg = received_msg
         boot.EXC_SINK.append(self.on_exception)
         boot.CLOCK.active = self.clock
 
@@ -166,6 +192,9 @@ class ProtoSimulation:
 
         if self._orig_compute is not None:
             PacketSelector.compute = self._orig_compute
+        if getattr(self, "_orig_eval", None) is not None:
+            self._eval_cls.evaluate_individual = self._orig_eval
+            self._orig_eval = None
         bridge.SIM = None
         boot.CLOCK.active = None
 
@@ -199,6 +228,7 @@ class ProtoSimulation:
 
     @guard
     def on_send(self, party, message, recipient):
+        self.evals_since_quiet = 0  # the generation step ran to its end
         s = self.session
         text = str(message)
         mtype = message.symbol.name()[1:-1]
@@ -252,6 +282,28 @@ class ProtoSimulation:
             self.in_preempt = False
         if len(self.session.sim_history) > self.max_msgs:
             raise StopSession()
+
+    @guard
+    def compute_time(self):
+        """Virtual time one candidate evaluation takes (a pre-emption point inside the search)."""
+        self.evals_since_quiet += 1
+        if not self.search_speed:
+            return
+        d = self.ch.pick([0.0, 0.0, 0.0005, 0.004] if self.search_speed == 1 else [0.0, 0.002, 0.03, 0.25], "sched", "search-time")
+        if d:
+            self.spend(d)
+
+    def spend(self, d: float):
+        if self.in_preempt:
+            return
+        self.in_preempt = True
+        try:
+            before = sum(self.session.delivered.values())
+            self.clock.tick(d)
+            if sum(self.session.delivered.values()) > before:
+                self.run.probe("delivery_during_search")
+        finally:
+            self.in_preempt = False
 
     def schedule_peer_poll(self, delay: float):
         sess = self.session
